@@ -13,10 +13,10 @@ class Unsupported(Exception):
 MASKS = {"AuraMask_1_12": (4, 32, 2), "AuraMask_2_4_3": (8, 64, 3), "AuraMask_3_3_5": (8, 64, 5), "EnchantMask": (2, 16, 2), "CacheMask": (4, 32, 4)}
 
 
-def prim_payload(name, rng, size_hint):
+def prim_payload(name, rng, size_hint, maximal=False):
     if name in MASKS:
         mb, slots, pb = MASKS[name]
-        mode = rng.below(5)
+        mode = 1 if maximal else rng.below(5)
         if mode == 0:
             mask = 0
         elif mode == 1:
@@ -50,8 +50,9 @@ def prim_payload(name, rng, size_hint):
 
 
 class Enc:
-    def __init__(self, toks, rng, maxlen=3, sample=None):
+    def __init__(self, toks, rng, maxlen=3, sample=None, maximal=False, strlen=None):
         self.t, self.i, self.r, self.maxlen, self.sample = toks, 0, rng, maxlen, sample
+        self.maximal, self.strlen = maximal, strlen   # maximal: longest strings, all flag bits, full masks, optional present
         self.counts = {int(toks[k + 1]) for k in range(len(toks) - 1) if toks[k] == "arrv"}
         self.steer = {int(toks[k + 1]) for k in range(len(toks) - 1) if toks[k] == "if"}
         self.nsteer = 0
@@ -119,7 +120,9 @@ class Enc:
             if const is not None:
                 v = const
             elif vid in self.counts:
-                v = self.r.below(self.maxlen + 1)
+                v = self.maxlen if self.maximal else self.r.below(self.maxlen + 1)
+            elif vid in self.steer and self.maximal:
+                v = (1 << (8 * w)) - 1
             elif vid in self.steer:
                 v = self.steer_value(vid, w)
             else:
@@ -147,12 +150,12 @@ class Enc:
         if k == "datetime":
             return (6 << 11).to_bytes(4, "little"), 6 << 11
         if k == "cstring":
-            return bytes(97 + self.r.below(26) for _ in range(self.r.below(8))) + b"\x00", None
+            return self.text(255) + b"\x00", None
         if k == "sizedcstring":
-            s = bytes(97 + self.r.below(26) for _ in range(self.r.below(8)))
+            s = self.text(7999)
             return (len(s) + 1).to_bytes(4, "little") + s + b"\x00", None
         if k == "string":
-            s = bytes(97 + self.r.below(26) for _ in range(self.r.below(8)))
+            s = self.text(255)
             return bytes([len(s)]) + s, None
         if k == "packedguid":
             g = self.r.choice([0, 1, self.r.below(1 << 64), self.r.below(1 << 24) << 16])
@@ -160,7 +163,7 @@ class Enc:
             mask = sum(1 << i for i in range(8) if bs[i])
             return bytes([mask]) + bytes(b for b in bs if b), g
         if k == "prim":
-            return prim_payload(self.nxt(), self.r, self.maxlen), None
+            return prim_payload(self.nxt(), self.r, self.maxlen, self.maximal), None
         if k == "struct":
             return self.members({}), None
         if k == "arrf":
@@ -187,6 +190,11 @@ class Enc:
                 self.skip_ty()
             return out, None
         raise Unsupported(k)
+
+    def text(self, longest):
+        """string payload: random short by default; `strlen` pins the length (capped at the type's longest), maximal uses the longest"""
+        n = longest if self.maximal else self.r.below(8) if self.strlen is None else min(self.strlen, longest)
+        return bytes(97 + self.r.below(26) for _ in range(n))
 
     def steer_value(self, vid, w):
         """flag-like steering variable: none / single masks / all, cycling with the sample index"""
@@ -253,7 +261,7 @@ class Enc:
             elif k == "fe":
                 self.i += 1
                 start = self.i
-                n = self.r.below(self.maxlen + 1)
+                n = self.maxlen if self.maximal else self.r.below(self.maxlen + 1)
                 for _ in range(n):
                     self.i = start
                     b = self.ty(env)[0]
@@ -278,7 +286,7 @@ class Enc:
                 else:
                     self.skip_members()
             elif k == "opt":
-                if self.r.below(2):
+                if self.maximal or self.r.below(2):
                     b = self.members(env)
                     if not b:
                         raise Unsupported("empty optional")
@@ -292,8 +300,8 @@ class Enc:
         return self.members(env)
 
 
-def encode(tokens, rng, maxlen=3, sample=None):
-    e = Enc(tokens, rng, maxlen, sample)
+def encode(tokens, rng, maxlen=3, sample=None, maximal=False, strlen=None):
+    e = Enc(tokens, rng, maxlen, sample, maximal, strlen)
     b = e.members({})
     if e.i != len(tokens):
         raise Unsupported("trailing tokens")
